@@ -98,6 +98,9 @@ def check(run):
     run.floor('C06-AGREE', sum(1 for o in run.obs if o.rule == 'C06-AGREE'), 19)
     outfile(run, p)
     inplace(run, p)
+    from .. import ief, triage
+    ief.run_ief(run, 'C06', [p.fn('detect_df')], triage=triage.IEF)
+    run.floor('C06-IEF', run.units['ief_functions_checked'], 80)
 
 
 def agree(run, p, kind, ver, det):
